@@ -9,6 +9,7 @@ import OdeVerif.Model.Stiffness
 import OdeVerif.Model.Spikes
 import OdeVerif.Model.AnalyticIntegrator
 import OdeVerif.Model.Graph
+import OdeVerif.Model.MixedIntegrator
 
 open Lean
 
@@ -244,6 +245,43 @@ def opVerdict (j : Json) : Except String Json := do
   | some v => pure (Json.mkObj (base ++ [("verdict", bools v), ("analytic", nats (Graph.analyticIdx s.n v)),
                                           ("numeric", nats (Graph.numericIdx s.n v))]))
 
+/-! ### C13 mixed integrator (scripted stepper) -/
+
+def getOptFloats (j : Json) (k : String) : Except String (List (Option Float)) := do
+  let a ← getArr j k
+  a.toList.mapM (fun x => match x with
+    | Json.null => pure none
+    | _ => do pure (some (← floatOfBits (← x.getStr?))))
+
+/-- the scripted `evolve.apply` shared with the Python stand-in: covers 1, 1/2 or 1/4 of the requested
+interval depending on `floor(t * 4096) mod 3`; state moves linearly with fixed rates; suggests 2·dt -/
+def scriptedApply (rates : List Float) (t t1 _h : Float) (y : List Float) : Float × Float × List Float :=
+  let k := (t * 4096.0).toUInt64 % 3
+  let frac : Float := if k == 0 then 1.0 else if k == 1 then 0.5 else 0.25
+  let t' := if k == 0 then t1 else t + frac * (t1 - t)
+  let dt := t' - t
+  (t', dt * 2.0, (List.zipWith (fun v r => v + dt * r) y rates))
+
+def opMiRun (j : Json) : Except String Json := do
+  let spikes ← (← getArr j "spikes").toList.mapM (fun e => do
+    let a ← e.getArr?
+    match a.toList with
+    | [t, syms] => do pure ((← floatOfBits (← t.getStr?)), (← fromJson? syms : List Nat))
+    | _ => .error "bad spike")
+  let rates ← getFloats j "rates"
+  let c : MI.Cfg Float := {
+    simTime := (← getFloat j "sim_time"), maxStep := (← getFloat j "max_step"), aliasSpikes := (← getBool j "alias"),
+    spikes := spikes, y0 := (← getFloats j "y0"), inc := (← getFloats j "inc"),
+    upper := (← getOptFloats j "upper"), lower := (← getOptFloats j "lower"), apply := scriptedApply rates }
+  match MI.integrate c (← getNat j "outer_fuel") (← getNat j "inner_fuel") with
+  | none => pure (Json.mkObj [("out_of_fuel", Json.bool true)])
+  | some s => pure (Json.mkObj [
+      ("t_log", jFloats (s.log.reverse.map (·.1))),
+      ("y_log", Json.arr (s.log.reverse.map (fun e => jFloats e.2)).toArray),
+      ("crossed", Json.bool s.crossed),
+      ("t_end", Json.str (bitsOfFloat s.t)),
+      ("applied", Json.arr (s.applied.reverse.map (fun e => Json.arr #[Json.str (bitsOfFloat e.1), Json.str (bitsOfFloat e.2.1), Json.num (JsonNumber.fromNat e.2.2)])).toArray)])
+
 def dispatch (op : String) (j : Json) : Json :=
   match op with
   | "ping" => Json.mkObj [("pong", j)]
@@ -257,6 +295,7 @@ def dispatch (op : String) (j : Json) : Json :=
   | "from-json" => run (opFromJson j)
   | "ai-run" => run (opAiRun j)
   | "verdict" => run (opVerdict j)
+  | "mi-run" => run (opMiRun j)
   | _ => jerr ("unknown-op: " ++ op)
 
 end OdeVerif.Driver
